@@ -353,6 +353,16 @@ package server
 //@   assumes c != nil && c.logger != nil && c.members != nil && (forall k string :: (k in c.members) ==> c.members[k] != nil)
 //@   safety
 
+// An acknowledgement echoes the NATS subject the message arrived on. Subjects are arbitrary bytes (a stream with a
+// wildcard subject receives whatever matches), protobuf strings must be valid UTF-8, so encoding the ack can fail; that
+// must not end the process (C14)
+//@ func (*partition).sendAck serves C14
+//@   assumes p != nil && p.Partition != nil && p.srv != nil && p.srv.logger != nil && p.srv.ncAcks != nil && ack != nil
+//@   safety
+//@ func (*partition).sendTooLargeNack serves C14
+//@   assumes p != nil && p.Partition != nil && p.srv != nil && p.srv.logger != nil && p.srv.config != nil && p.srv.ncAcks != nil && msg != nil
+//@   safety
+
 // A replication request is a NATS payload too (C14): whatever replica id it names, the leader must not crash. The leader
 // keeps a replicator for every replica EXCEPT itself (startReplicating), so "is a replica" does not imply "has a
 // replicator".
